@@ -53,6 +53,10 @@ def main():
     if "--tier" in args:
         tier = args[args.index("--tier") + 1]
         args.remove("--tier"); args.remove(tier)
+    only = None
+    if "--checks" in args:
+        only = args[args.index("--checks") + 1].split(",")
+        args.remove("--checks"); args.remove(",".join(only))
     names = [a for a in args if not a.startswith("--")]
     if not names:
         names = sorted(os.path.basename(d) for d in glob.glob(os.path.join(ROOT, "seeded", "C*-*")))
@@ -61,7 +65,7 @@ def main():
     jobs = []
     for n in names:
         pid = n.split("-")[0]
-        checks = registered if all_checks else [p for p in [pid] if p in registered]
+        checks = registered if all_checks else [p for p in (only or [pid]) if p in registered]
         if checks:
             jobs.append((n, checks))
     path = os.path.join(ROOT, "seeded", "RESULTS.json")
